@@ -120,6 +120,10 @@ func (b *writeBuffer) advancePastLeadingZeroes() (n uint64) {
 	}
 	n = uint64(i - b.p)
 	b.p = i
+	if i < len(b.prev) {
+		// A non-zero byte remains in b.prev, so b.curr's bytes are not leading.
+		return n
+	}
 
 	// Consume zeroes from b.curr.
 	i = 0
